@@ -8,7 +8,8 @@ Record c11case := {
   c11_wellformed : bool;               (* rendered from rows by the generator (else: arbitrary / corrupted bytes) *)
   c11_text : list N;                   (* the CSV bytes *)
   c11_source : list c11row;            (* the rows it was rendered from, feature = raw bytes as written *)
-  c11_parsed : result (list c11row)    (* what Lexicon::parse_csv returned *)
+  c11_parsed : result (list c11row);   (* what Lexicon::parse_csv returned *)
+  c11_stored : option (result (list (list N)))  (* None: not compiled for this case; features stored in a dictionary compiled from the same rows, by word id *)
 }.
 
 Definition row_eqb (a : lexent) (b : c11row) : bool :=
@@ -37,7 +38,18 @@ Definition c11_oracle (c : c11case) : bool :=
       else true
   end.
 
+(** the compiled dictionary holds the feature of every kept row byte for byte (an empty lexicon
+    cannot be compiled: crawdad rejects an empty key set) *)
+Definition c11_stored_ok (c : c11case) : bool :=
+  let kept := filter (fun r => match r_surface r with [] => false | _ => true end) (c11_source c) in
+  match c11_stored c with
+  | None => true
+  | Some (Ok fs) => list_eqb (list_eqb N.eqb) fs (map r_feature kept)
+  | Some Err => match kept with [] => true | _ => existsb (fun r => existsb (N.eqb 0) (r_surface r)) kept end
+  | Some Panic => false
+  end.
+
 Definition c11_nontrivial (c : c11case) : bool :=
   c11_wellformed c && match c11_parsed c with Ok (_ :: _ :: _) => true | _ => false end.
 
-Definition c11_report := report c11_corr c11_oracle (fun _ => false) c11_nontrivial.
+Definition c11_report := report c11_corr (fun c => c11_oracle c && c11_stored_ok c) (fun _ => false) c11_nontrivial.
